@@ -186,6 +186,13 @@ func c01Run(c *core.Ctx, idx int) {
 				return []any{plain()} // a slice is ONE value, also when it is the only argument
 			case 5:
 				return []any{plain(), plain(), plain()}
+			case 6:
+				// a nested stack in which ONE sub-stack is reachable along two paths (acyclic all the same)
+				leaf := stackage.Or().Push(plain())
+				if r.Bool() {
+					return stackage.And().Push(leaf, leaf)
+				}
+				return stackage.And().Push(stackage.List().Push(leaf), stackage.Not().Push(leaf))
 			}
 			return plain()
 		}
